@@ -217,26 +217,28 @@ def run(ctx):
     for c in cone:
         for m in c.methods.values():
             for n in own_nodes(m.node):
-                tgt = None
-                if isinstance(n, ast.Assign):
-                    tgt = [t for t in n.targets if isinstance(t, ast.Attribute) and t.attr == ROLE["counter"] and ROLE["counter"]]
-                    if tgt:
-                        n_cw += 1
-                        if m.name == "__init__" and isinstance(n.value, ast.Constant) and n.value.value == 0:
-                            chk.ok("R19.d", m.qualname, m.loc(n), "counter starts at 0")
-                        else:
-                            chk.violation(
-                                "R19.d", m, n,
-                                f"{m.name} rebinds the name counter (`{ast.unparse(n)}`): names already used by "
-                                "this generator are handed out again",
-                                loc=m.loc(n),
-                            )
-                elif isinstance(n, ast.AugAssign) and isinstance(n.target, ast.Attribute) and ROLE["counter"] and n.target.attr == ROLE["counter"]:
-                    n_cw += 1
-                    if isinstance(n.op, ast.Add) and isinstance(n.value, ast.Constant) and n.value.value == 1:
-                        chk.ok("R19.d", m.qualname, m.loc(n), "counter += 1")
-                    else:
-                        chk.violation("R19.d", m, n, f"the name counter is changed by `{ast.unparse(n)}`, not increased by one", loc=m.loc(n))
+                if not ROLE["counter"]:
+                    continue
+                C = f"self.{ROLE['counter']}"
+                is_write = (isinstance(n, ast.Assign) and len(n.targets) == 1 and ast.unparse(n.targets[0]) == C) or (
+                    isinstance(n, ast.AugAssign) and ast.unparse(n.target) == C)
+                if not is_write:
+                    continue
+                n_cw += 1
+                k = step_of(ctx, m, n, C)
+                if k == 1:
+                    chk.ok("R19.d", m.qualname, m.loc(n), "counter advanced by one")
+                elif k is not None:
+                    chk.violation("R19.d", m, n, f"the name counter is changed by `{ast.unparse(n)}`, not increased by one", loc=m.loc(n))
+                elif m.name == "__init__" and isinstance(n, ast.Assign) and isinstance(n.value, ast.Constant) and n.value.value == 0:
+                    chk.ok("R19.d", m.qualname, m.loc(n), "counter starts at 0")
+                else:
+                    chk.violation(
+                        "R19.d", m, n,
+                        f"{m.name} rebinds the name counter (`{ast.unparse(n)}`): names already used by "
+                        "this generator are handed out again",
+                        loc=m.loc(n),
+                    )
     if ROLE["counter"] is not None:
         chk.floor("R19.d", n_cw, 2, "writes of the name counter")
     nn = ROLE["namer"]
@@ -244,7 +246,7 @@ def run(ctx):
         chk.violation("R19.d", generate, None, "no function of the generator builds the instance name from a counter it increases: names can repeat")
     else:
         rets = [r for r in own_nodes(nn.node) if isinstance(r, ast.Return)]
-        inc = [a for a in own_nodes(nn.node) if isinstance(a, ast.AugAssign) and _self_attr(a.target) == ROLE["counter"]]
+        inc = [a for a in own_nodes(nn.node) if step_of(ctx, nn, a, f"self.{ROLE['counter']}") == 1]
         if len(rets) == 1 and inc and source_pos(nn.node)(inc[0]) < source_pos(nn.node)(rets[0]):
             chk.ok("R19.d", nn.qualname, nn.loc(), "name embeds the freshly increased counter")
         else:
@@ -327,11 +329,15 @@ def _find_roles(ctx, base, cone):
     counter = namer = None
     for c in cone:
         for m in c.methods.values():
-            incs = [a for a in own_nodes(m.node) if isinstance(a, ast.AugAssign) and _self_attr(a.target)]
+            incs = []
+            for a in own_nodes(m.node):
+                tg = a.target if isinstance(a, ast.AugAssign) else a.targets[0] if isinstance(a, ast.Assign) and len(a.targets) == 1 else None
+                if tg is not None and _self_attr(tg) and step_of(ctx, m, a, f"self.{tg.attr}") is not None:
+                    incs.append(tg.attr)
             rets = [r for r in own_nodes(m.node) if isinstance(r, ast.Return) and r.value is not None]
-            for a in incs:
-                if any(isinstance(r.value, (ast.JoinedStr, ast.BinOp, ast.Call)) and any(_self_attr(x) == a.target.attr for x in ast.walk(r.value)) for r in rets):
-                    counter, namer = a.target.attr, m
+            for attr in incs:
+                if any(isinstance(r.value, (ast.JoinedStr, ast.BinOp, ast.Call)) and any(_self_attr(x) == attr for x in ast.walk(r.value)) for r in rets):
+                    counter, namer = attr, m
     ROLE.update(limit=limit, iter=it, counter=counter, namer=namer)
 
 
@@ -761,10 +767,22 @@ def _pool_and_shape(ctx, gen_cls, generate_raw, cro):
         chk.violation("R19.g", generate_raw, o, "jobs/operations are not appended exactly once per loop step", loc=generate.loc(o))
     # sizes and durations from the configured ranges
     want = {"num_jobs": "num_jobs_range", "duration": "duration_range"}
-    for m, (var, rng) in ((generate, ("num_jobs", "num_jobs_range")), (ctx.norm.flat(cro, depth=3), ("duration", "duration_range"))):
+    croF = ctx.norm.flat(cro, depth=3)
+    # the draws by role: the value used as `duration=` of the Operation built in
+    # create_random_operation; the job count is the draw assigned to (an alias of)
+    # the public parameter `num_jobs`
+    dur_names = set()
+    for c_ in own_nodes(croF.node):
+        if isinstance(c_, ast.Call) and ast.unparse(c_.func).split(".")[-1] == "Operation":
+            dv = next((k.value for k in c_.keywords if k.arg == "duration"), c_.args[1] if len(c_.args) > 1 else None)
+            if isinstance(dv, ast.Name):
+                dur_names.add(dv.id)
+    for m, (var, rng) in ((generate, ("num_jobs", "num_jobs_range")), (croF, ("duration", "duration_range"))):
         hit = False
         for n in own_nodes(m.node):
-            if isinstance(n, ast.Assign) and isinstance(n.targets[0], ast.Name) and n.targets[0].id.split("__")[0] == var and isinstance(n.value, ast.Call):
+            is_var = isinstance(n, ast.Assign) and isinstance(n.targets[0], ast.Name) and (
+                n.targets[0].id.split("__")[0] == var or (var == "duration" and n.targets[0].id in dur_names))
+            if is_var and isinstance(n.value, ast.Call):
                 c = n.value
                 if isinstance(c.func, ast.Attribute) and c.func.attr == "randint":
                     hit = True
